@@ -31,6 +31,59 @@ def scenarios():
     }
 
 
+def with_inheritance(sc, hows, warm=None):
+    """The scenario `sc` when the store object was built by a parent BEFORE the processes were started, as in every
+    program that calls dds.set_store(...) once and then starts workers: process i does not build its store but works with
+    the image of the parent's object that hows[i] names ("fork": memory image of a forked child = deep copy; "spawn":
+    pickle round trip; "self": the parent itself goes on; None: the process still builds its own store).  The parent
+    builds the store of process 0 and, when `warm` is given, first does that much work with it (so that whatever the
+    object accumulates while being used is inherited as well).  The expected results do not change: the property does
+    not depend on who built the store object."""
+    init0 = sc["procs"][0][0]
+    procs = []
+    for prog, how in zip(sc["procs"], hows):
+        if how is not None and prog[0] == init0:
+            prog = [["inherit", how]] + prog[1:]
+        procs.append(prog)
+    # a path that only the parent committed must keep serving the parent's value
+    touched = {a[2] for prog in sc["procs"] for a in prog if a[0] == "keep"}
+    exact = {init0[2] + a[2]: a[1] for a in (warm or []) if a[2] not in touched}
+    final = [[i, d, ps + [a[2] for a in (warm or []) if [i, d] == init0[1:] and a[2] not in ps]] for i, d, ps in sc["final"]]
+    return dict(sc, procs=procs, parent=[init0] + list(warm or []), final=final, final_exact=exact)
+
+
+def inherited_scenarios(tier):
+    """The scenarios of scenarios() along the dimension 'where does the store object of a process come from'."""
+    base = scenarios()
+    warm = [["keep", "aa01", "/d/w"], ["keep", "bb02", "/d/v"]]      # the parent has stored blobs and committed (other) paths
+    out = {}
+
+    def add(tag, name, hows, w=None):
+        sc = with_inheritance(base[name], hows, w)
+        if any(a[0] == "inherit" for prog in sc["procs"] for a in prog) and not any((o["procs"], o["parent"]) == (sc["procs"], sc["parent"]) for o in out.values()):
+            out[f"{name}@{tag}"] = sc
+    add("fork", "same-keep-cold-store", ["fork", "fork"])
+    add("spawn", "same-keep-cold-store", ["spawn", "spawn"])
+    add("parent+fork", "same-keep-cold-store", ["self", "fork"])
+    add("fork+own", "same-keep-cold-store", ["fork", None])
+    add("fork", "two-committers-one-path", ["fork", "fork"])
+    add("warm-fork", "two-committers-one-path", ["fork", "fork"], warm)
+    # (the parent has committed the path itself: what its object remembers about the path is stale in the children)
+    add("stale-fork", "two-committers-one-path", ["fork", "fork"], [["keep", "bb02", "/d/p"]])
+    add("fork", "keep-vs-load", ["fork", "fork"])
+    add("warm1-parent+spawn", "rekeep-changed-vs-reader", ["self", "spawn"], warm[:1])
+    add("fork", "two-data-views", ["fork", None])
+    if tier != "quick":
+        for name, sc in base.items():
+            n = len(sc["procs"])
+            for tag, hows, w in (("fork", ["fork"] * n, None), ("spawn", ["spawn"] * n, None), ("parent+fork", ["self"] + ["fork"] * (n - 1), None),
+                                 ("fork+spawn", ["fork"] + ["spawn"] * (n - 1), None),
+                                 ("own+fork", [None] + ["fork"] * (n - 1), None), ("warm-fork", ["fork"] * n, warm),
+                                 ("warm-parent+spawn", ["self"] + ["spawn"] * (n - 1), warm)):
+                add(tag, name, hows, w)
+    return out
+
+
 def schedules_for(n_threads, ops_per_thread, bound, rng, cap):
     """Schedules with at most `bound` preemptions: the running thread is switched after a chosen number of operations."""
     out = [[]]          # no preemption: thread 0 to completion, then 1, ...
@@ -63,10 +116,27 @@ def schedules_for(n_threads, ops_per_thread, bound, rng, cap):
     return out
 
 
-def check_result(name, sc, r):
+def serial_final(sc):
+    """Key that every path must serve after the parent and then the processes 0, 1, ... have run ONE AFTER THE OTHER (the
+    schedule []): the one of the last keep of that path in that order, per data directory."""
+    parent = sc.get("parent") or []
+    exp = {}
+    for prog in [parent] + [(parent[:1] if any(a[0] == "inherit" for a in prog) else []) + prog for prog in sc["procs"]]:
+        ddir = None
+        for a in prog:
+            if a[0] == "init":
+                ddir = a[2]
+            elif a[0] == "keep":
+                exp[ddir + a[2]] = a[1]
+    return exp
+
+
+def check_result(name, sc, r, schedule=None):
     """Problems of one scheduled run."""
     probs = []
     vals = {k: repr(v) for k, v in VALUES.items()}
+    if r.get("parent_error"):
+        return [("parent-failed", r["parent_error"])]
     for tid, outs in enumerate(r["out"]):
         if outs is None:
             probs.append(("thread-hung", tid))
@@ -91,6 +161,10 @@ def check_result(name, sc, r):
             k, val = v.split(":", 1)
             if vals.get(k) != val:
                 probs.append(("final-value-wrong", p + " " + v[:50]))
+            elif sc.get("final_exact", {}).get(p, k) != k:
+                probs.append(("final-value-foreign", p + " " + v[:50]))
+            elif schedule == [] and serial_final(sc).get(p, k) != k:
+                probs.append(("final-value-not-of-last-committer", p + " " + v[:50] + " after a serial run, expected " + serial_final(sc)[p]))
     return probs
 
 
@@ -98,25 +172,36 @@ def run(rep, tier, seed, proof_ok):
     rng = random.Random(seed)
     bound = 2 if tier == "quick" and proof_ok else 3
     cap = 120 if tier == "quick" and proof_ok else 1500
+    cap_inh = 30 if tier == "quick" and proof_ok else 60
+    inh = inherited_scenarios(tier)
     rep.rule = (f"controlled scheduler over the real LocalFileStore code: scenarios {{same keep on a cold store (2 and 3 processes), keep vs "
                 "load, re-keep with another key vs reader, two committers of one path, one internal directory with two data "
-                "directories}, every process includes store creation; scheduling points = every intercepted file-system operation and "
-                f"each half of every write; schedules: all with <= 1 preemption, {cap} sampled with 2 preemptions"
+                "directories}, every process includes store creation; the same scenarios along the dimension 'origin of the store "
+                "object of a process': built by the process itself (above), or built (and possibly already used for keeps) by a parent "
+                "BEFORE the processes were started and inherited as the memory image of a forked child (deep copy), through a pickle "
+                "round trip (spawn), or used by the parent itself next to its children, also mixed with processes that build their "
+                f"own ({len(inh)} inherited scenarios{': ' + ', '.join(inh) if len(inh) <= 12 else ' = every scenario x 7 origins'}); scheduling points = "
+                "every intercepted file-system operation and "
+                f"each half of every write; schedules: all with <= 1 preemption, {cap} ({cap_inh} for inherited stores) sampled with 2 preemptions"
                 f"{', plus random schedules' if bound >= 3 else ''}; each keep / load that returns must return the complete value of its "
-                "key, no thread may die with an exception, and the final store must serve a correct value for every path; "
+                "key, no thread may die with an exception, and the final store must serve a correct value for every path (a path "
+                "committed only by the parent: the parent's value; after the serial schedule: the value of the last committer); "
                 "plus the system-call trace correspondence between the real store and the Coq model; distinct = distinct "
                 "(scenario, schedule); non-trivial = schedule with at least one preemption")
     rep.assumptions += ["processes are threads with separate store objects, driven at the store interface exactly as dds._api drives it "
                         "(has_blob, store_blob, sync_paths, fetch_paths, fetch_blob); dds's own module state is per process and not shared",
+                        "a forked child's image of its parent's store object is copy.deepcopy of it, a spawned child's is its pickle round "
+                        "trip; os.getpid() differs between simulated processes and is the parent's for the parent",
                         "the operating system executes each intercepted call atomically"]
     dist = {}
-    for name, sc in scenarios().items():
+    inherited = inh
+    for name, sc in list(scenarios().items()) + list(inherited.items()):
         sc = dict(sc, values=VALUES)
         base = C.run_driver("drive_sched.py", {"scenario": sc, "schedules": [[]]})[0]
         opt = base["ops_per_thread"]
-        sch = schedules_for(len(sc["procs"]), opt, bound, rng, cap)
+        sch = schedules_for(len(sc["procs"]), opt, bound, rng, cap_inh if name in inherited else cap)
         res = []
-        chunk = 250
+        chunk = 40 if name in inherited and tier == "quick" else 250     # (few schedules per inherited scenario: still spread them)
         import concurrent.futures as cf
         with cf.ThreadPoolExecutor(max_workers=C.NPROC) as ex:
             parts = list(ex.map(lambda c: C.run_driver("drive_sched.py", {"scenario": sc, "schedules": c}, timeout=900),
@@ -124,10 +209,13 @@ def run(rep, tier, seed, proof_ok):
         for p in parts:
             res += p
         dist[name] = {"schedules": len(sch), "ops_per_thread": opt}
+        if name in inherited:
+            dist[name]["store_objects"] = [next((a[1] for a in prog if a[0] == "inherit"), "own") for prog in sc["procs"]]
+            dist[name]["parent_ops_before_fork"] = len(sc["parent"]) - 1
         for s, r in zip(sch, res):
             switches = sum(1 for a, b in zip(s, s[1:]) if a != b)
             rep.case(json.dumps([name, s]), nontrivial=switches >= 1)
-            for kind, detail in check_result(name, sc, r):
+            for kind, detail in check_result(name, sc, r, s):
                 rep.violation(f"race:{kind}:{name}", f"scenario {name}: {kind}: {detail} under schedule with {switches} switches",
                               {"scenario": name, "schedule": s, "result": r, "spec": sc})
     rep.extra["input_distribution"] = dist
@@ -139,6 +227,6 @@ def replay(path):
     r = json.load(open(path))["replay"]
     out = C.run_driver("drive_sched.py", {"scenario": r["spec"], "schedules": [r["schedule"]]})[0]
     print(json.dumps(out, indent=1))
-    bad = bool(check_result(r["scenario"], r["spec"], out))
+    bad = bool(check_result(r["scenario"], r["spec"], out, r["schedule"]))
     print("REPRODUCED" if bad else "not reproduced")
     return 1 if bad else 0
